@@ -601,7 +601,26 @@ def g_reshape(ctx, heap):
     if n is None:
         return None
     x = heap[n]
-    a = {"shape": [int(d) for d in reshape_targets(ctx.rng, x)]}
+    rng = ctx.rng
+    pool = getattr(ctx, "shape_pool", None)
+    if pool is None:
+        pool = ctx.shape_pool = []
+    shape = None
+    if rng.random() < 0.3:
+        # a target used earlier in this run (by an array of the same size but
+        # possibly different fused structure), or another value's shape
+        cands = [s for s in pool if int(np.prod(s)) == x.size]
+        cands += [list(v.shape) for v in heap.values()
+                  if kind_of(v) in "AF" and v is not x and v.size == x.size]
+        if cands:
+            shape = rng.choice(cands)
+    if shape is None:
+        shape = reshape_targets(rng, x)
+    a = {"shape": [int(d) for d in shape]}
+    if -1 not in a["shape"]:
+        for s in (a["shape"], [int(d) for d in x.shape]):
+            if s not in pool and len(pool) < 40:
+                pool.append(s)
     if ctx.inplace():
         a["inplace"] = True
     else:
